@@ -62,11 +62,13 @@ class ConfigService:
         except AttributeError:
             # if we get here then we are not an attribute on 'self'
             # so look in the custom map
-            if self.__custom is not None and name in self.__custom:
+            given = self.__custom is not None and name in self.__custom
+            if given:
                 attr = self.__custom[name]
 
-            # if not in custom then load from 'deep.config'
-            if attr is None:
+            # if not in custom then load from 'deep.config'. (None given in code is a value - 'no auth provider', 'no
+            # logging config' - and wins over the environment like any other.)
+            if not given:
                 from deep import config
                 has_attr = hasattr(config, name)
                 if not has_attr:
@@ -185,8 +187,9 @@ class ConfigService:
             if filename.startswith(path):
                 return True, path
 
-        if filename.startswith(self.APP_ROOT):
-            return True, self.APP_ROOT
+        app_root = self.APP_ROOT
+        if app_root is not None and filename.startswith(app_root):
+            return True, app_root
 
         return False, None
 
